@@ -11,7 +11,7 @@ def run(rep, tier):
     n, cyc, nm = (120, 250, 400) if tier == "quick" else (12000, 400, 40000)
     n = rep.scale(n)
     nm = rep.scale(nm)
-    a = runner.correspondence(rep, prop=PROP, mod_name="harness.evsim", driver_kind="monitor", ncases=n,
+    a = runner.correspondence(rep, prop=PROP, mod_name="harness.evsim", driver_kind="monitor", legal_only=True, ncases=n,
                               extra=("monitor", cyc), nontrivial=lambda r: r["stats"]["trg_and_clear"] >= 1 and r["stats"]["edge_sources"] >= 1,
                               sample_fmt=lambda r: {"monitor": r["descr"], "cycles (i enable clear)": r["lines"][1:6], "observed (trg pending line)": r["obs"][:5]})
     b = runner.correspondence(rep, prop=PROP, mod_name="harness.evsim", driver_kind="evmap", ncases=nm,
